@@ -769,6 +769,12 @@ func (m *Machine) mapUpdate(mv *MapV, key, val Value, g *Term, site ssa.Instruct
 		}
 		if !done {
 			p := And(G, Not(matched))
+			if !p.IsFalse() && len(nc.Entries) >= 4 && !p.IsTrue() {
+				// keep maps from growing with entries that can never be present
+				if m.feasible(And(m.gNow, p)) == Unsat {
+					p = TS.False
+				}
+			}
 			if !p.IsFalse() {
 				nc.Entries = append(nc.Entries, MapEntry{K: key, P: p, V: val})
 			}
